@@ -68,9 +68,10 @@ class Agg:
 class IntV:
     # lz: number of low bits known to be zero (value is a multiple of 2^lz); ub: value known to be < 2^ub.
     # Only used to turn `or` of disjoint bit ranges (clang packs two 32-bit coordinates into one register) into `add`.
-    __slots__ = ('t', 'bits', 'norm', 'lz', 'ub')
+    __slots__ = ('t', 'bits', 'norm', 'lz', 'ub', 'lazy')
 
     def __init__(s, t, bits, norm=False, lz=0, ub=None):
+        s.lazy = None      # (object, offset term, size): an untyped read of a symbolic buffer, re-typed on first typed use
         s.t = t
         s.bits = bits
         s.norm = norm
